@@ -300,3 +300,28 @@ func containsOp(ops []string, op string) bool {
 
 // Add lets checks append their own events (session middleware, auth, terminate).
 func (r *Rec) Add(e Ev) { r.add(e) }
+
+// Multi dispatches callbacks of one server to per-connection recorders by the
+// connection's remote address. The map is filled before serving starts and
+// never written afterwards (no shared lock that could hide library races).
+type Multi struct {
+	M map[string]*Rec
+}
+
+func (m *Multi) For(ctx context.Context) *Rec {
+	a := wire.RemoteAddress(ctx)
+	if a == nil {
+		return nil
+	}
+	return m.M[a.String()]
+}
+
+func (m *Multi) ParseFn() wire.ParseFn {
+	return func(ctx context.Context, query string) (wire.PreparedStatements, error) {
+		r := m.For(ctx)
+		if r == nil {
+			return nil, errors.New("harness: no recorder for this connection")
+		}
+		return r.ParseFn()(ctx, query)
+	}
+}
